@@ -207,8 +207,42 @@ def _zone_spec(draw):
 
 
 @st.composite
+def _prv_window_spec(draw):
+    """R1 - pipe - J1 - [PRV with a large minor loss] - J2 (fixed demand D).  The flow is known (demand-driven), so
+    the head upstream of the valve is H - K D^1.852 by my own H-W law and the setting can be placed a chosen fraction of
+    the open-valve loss r D^2 below it: for fractions < 1 the valve cannot hold the setting and must be reported Open,
+    for fractions > 1 it throttles (Active).  Targets the narrow window between 'open' and 'active'."""
+    o = draw(netgen.options({'durations': [0, 0, 3600], 'report_all': None}))
+    o['demand_model'] = 'DD'
+    o['dm'] = 1.0
+    H = r_(draw(st.floats(50, 90)), 1)
+    D = draw(st.sampled_from([0.004, 0.008, 0.015, 0.03]))
+    plen, pd, pc = r_(draw(st.floats(100, 800)), 1), draw(st.sampled_from([0.25, 0.3, 0.4])), r_(draw(st.floats(90, 140)), 1)
+    dv = draw(st.sampled_from([0.08, 0.1, 0.15, 0.2]))
+    kv = draw(st.sampled_from([10.0, 40.0, 100.0, 250.0]))
+    z1, z2 = r_(draw(st.floats(0, 10)), 2), r_(draw(st.floats(0, 10)), 2)
+    h_up = H - L.pipe_loss(D, L.pipe_K(plen, pd, pc), 0.0)
+    loss_open = L.quad_loss(D, L.minor_r(kv, dv))
+    frac = draw(st.sampled_from([0.2, 0.5, 0.8, 0.95, 1.05, 1.5, 4.0]))
+    setting = r_(h_up - z2 - frac * loss_open, 4)
+    if setting <= 1.0:
+        setting = 1.0
+    return {'opts': o, 'patterns': {}, 'curves': {}, 'controls': [], 'profile': 'prv_window', 'tanks': [], 'pumps': [],
+            'junctions': [{'name': 'J1', 'elev': z1, 'demands': [[0.0, None, None]]},
+                          {'name': 'J2', 'elev': z2, 'demands': [[D, None, None]]}],
+            'reservoirs': [{'name': 'R1', 'head': H, 'pat': None}],
+            'pipes': [{'name': 'L1', 'a': 'R1', 'b': 'J1', 'len': plen, 'diam': pd, 'C': pc, 'minor': 0.0, 'status': 'OPEN',
+                       'cv': False}],
+            'valves': [{'name': 'V2', 'a': 'J1', 'b': 'J2', 'type': 'PRV', 'diam': dv, 'minor': kv, 'setting': setting,
+                        'status': 'ACTIVE'}]}
+
+
+@st.composite
 def net_case(draw, tier='quick'):
-    if draw(st.integers(0, 4)) == 0:
+    z = draw(st.integers(0, 9))
+    if z == 9:
+        return {'mode': 'net', 'spec': draw(_prv_window_spec())}
+    if z in (0, 1):
         return {'mode': 'net', 'spec': draw(_zone_spec())}
     f = dict(FEAT)
     if tier == 'thorough':
@@ -692,6 +726,14 @@ def _judge_link(spec, kind, l, st, q, hs, he, setting, approx, fits):
         if not abs(h - elev[0] - setting) <= T + fl:
             return ('valve_active/%s' % vt, 'active %s %s: %s pressure %r (head %r, elevation %r), setting %r'
                     % (vt, name, 'downstream' if vt == 'PRV' else 'upstream', h - elev[0], h, elev[0], setting))
+        # a throttling valve dissipates at least what it dissipates fully open (EPANET's prvstatus/psvstatus and
+        # WNTR's own _OpenPRVCondition/_OpenPSVCondition open the valve otherwise): holding the setting with less head
+        # loss than the open valve has is not a state of a pressure regulating valve
+        rr = L.minor_r(l['minor'], l['diam'])
+        if q > T and not dh >= L.quad_loss(q, rr) - (L.HTOL + T + 1e-9 * abs(dh)):
+            return ('valve_active/%s/less_loss_than_open' % vt,
+                    'active %s %s q=%r: head loss %r is below the loss of the fully open valve r q^2 = %r (minor loss %r)'
+                    % (vt, name, q, dh, L.quad_loss(q, rr), l['minor']))
         return None
     if st == 2 and vt == 'TCV':
         rr = L.minor_r(setting, l['diam'])
